@@ -815,8 +815,8 @@ def run(chk: lib.Check):
         ("decl/empty_project_52", "empty_project_52.aird"), ("writemodel", "WriteTestModel.aird"), ("pvmt", "PVMTTest.aird"),
         ("parser", "TestItems.aird"), ("filtering", "Filtered Project.aird"), ("Library Test", "Library Test.aird")) if (data / d_ / n_).exists()]
     rng.shuffle(fsmall)
-    fplan = [(fsmall[i % len(fsmall)], rng.getrandbits(40), ()) for i in range(9 if quick else 120)]
-    fplan += [(dict(big[i % len(big)], frag=True), rng.getrandbits(40), ()) for i in range(1 if quick else 12)]
+    fplan = [(fsmall[i % len(fsmall)], rng.getrandbits(40), ()) for i in range(16 if quick else 200)]
+    fplan += [(dict(big[i % len(big)], frag=True), rng.getrandbits(40), ()) for i in range(2 if quick else 16)]
     plan = [(sp_, 1000 + i, d_) for i, (sp_, d_) in enumerate(dplan)] + fplan + [(sp_, sd_, ()) for sp_, sd_ in plan]
     for spec, seed, directed in plan:
         if time.time() > deadline:
